@@ -1,0 +1,5 @@
+//go:build !verif
+
+package messagequeue
+
+func (mq *MessageQueue) verifAt(event string, topic Topic, b *Builder) {}
